@@ -8,6 +8,7 @@ import (
 	"encoding/json"
 	"fmt"
 	"net/netip"
+	"runtime"
 	"sort"
 
 	"github.com/jech/storrent/config"
@@ -55,9 +56,10 @@ type req struct{ i, b, l uint32 }
 
 var classes = map[string]req{
 	"r0": {0, 0, CS},
-	"r1": {1, 100, 5000}, // unaligned, inside piece 1
-	"rx": {0, 30000, CS}, // runs past the end of piece 0
-	"rz": {9, 0, CS},     // beyond the torrent
+	"r1": {1, 100, 5000},  // unaligned, inside piece 1
+	"rx": {0, 30000, CS},  // runs past the end of piece 0
+	"rz": {9, 0, CS},      // beyond the torrent
+	"rh": {0, 0, 1 << 30}, // a huge length
 }
 
 type remote struct {
@@ -242,6 +244,8 @@ func Replay(in []byte) any {
 		w.step = k + 1
 		r := w.peers[st.P]
 		var err error
+		var m0 runtime.MemStats
+		runtime.ReadMemStats(&m0)
 		switch st.A {
 		case "Interested":
 			err = peer.VerifHandleMessage(r.p, protocol.Interested{})
@@ -279,6 +283,13 @@ func Replay(in []byte) any {
 		if err != nil {
 			out.Note = fmt.Sprintf("step %d (%s): handler error %v", w.step, st.A, err)
 			return out
+		}
+		// "the upload work queued per peer is bounded": no step may allocate more than a few blocks'
+		// worth of memory, whatever length the remote asked for (a flood is 255 requests)
+		var m1 runtime.MemStats
+		runtime.ReadMemStats(&m1)
+		if d := m1.TotalAlloc - m0.TotalAlloc; d > 8<<20 {
+			w.viol("upload-alloc-unbounded", fmt.Sprintf("step %s %s %s allocated %d bytes (a request's length field is taken as the size of the buffer to fill)", st.A, st.P, st.R, d))
 		}
 		for _, n := range w.names {
 			w.drainWire(n)
